@@ -10,6 +10,7 @@ import (
 	cmtproto "github.com/cometbft/cometbft/proto/tendermint/types"
 	dbm "github.com/cosmos/cosmos-db"
 	sdk "github.com/cosmos/cosmos-sdk/types"
+	keeperutil "github.com/palomachain/paloma/v2/util/keeper"
 	"github.com/palomachain/paloma/v2/zzverif/world"
 )
 
@@ -47,6 +48,18 @@ type Run struct {
 	PanicAt int64
 	// PanicStage is "script" (harness: building the block's txs) or "abci" (FinalizeBlock / Commit).
 	PanicStage string
+}
+
+// FastForwardMessageIDs advances the global consensus-queue message id counter by n, as n further
+// queued messages would (long histories in short: aging rules keyed on message ids — the metrix
+// scoring window — then see old records). It writes the counter through the same id generator
+// the consensus keeper uses, into the root store between two blocks.
+func (r *Run) FastForwardMessageIDs(n int) {
+	ctx := r.W.App.NewUncachedContext(false, r.W.Root.BlockHeader())
+	ider := keeperutil.NewIDGenerator(r.W.App.ConsensusKeeper, nil)
+	for i := 0; i < n; i++ {
+		ider.IncrementNextID(ctx, "consensus-queue-counter-")
+	}
 }
 
 // Restart throws the application away and re-creates it over the same DB.
